@@ -11,6 +11,7 @@ from props.c08 import classify
 from props.c16 import tower_twin
 from vakt.cache import create_cached_guard, AllowanceCacheBackend
 from vakt.guard import Guard
+from vakt.storage.memory import MemoryStorage
 from vakt.util import Observer
 
 MODULE = 'Props.C11'
@@ -80,9 +81,15 @@ class CountingStorage:
         self.inner = inner
         self.finds = 0
 
+    hook = None
+
     def find_for_inquiry(self, q, c=None):
         self.finds += 1
-        return self.inner.find_for_inquiry(q, c)
+        res = self.inner.find_for_inquiry(q, c)
+        if self.hook is not None:
+            h, self.hook = self.hook, None
+            h()                      # something happens while this decision is in flight
+        return res
 
     def __getattr__(self, name):
         return getattr(self.inner, name)
@@ -191,6 +198,9 @@ def run(ctx):
             return len(keys) - 1
 
         present = {}
+        inflight = False
+        cache_empty = True          # no ask since the last successful mutation
+        reask = None
         mops, outs, human, problems = [], [], [], []
         nmut_ok = 0
         # start with every stored policy added, then the target and each of its near-twins asked in turn
@@ -200,16 +210,57 @@ def run(ctx):
             fo = forced[step] if step < len(forced) else None
             if fo is not None:
                 r = 0.0 if fo[0] == 'ask' else 0.6
+            elif reask is not None:
+                r = 0.0
             if r < 0.55:
-                qa = fo[1] if fo is not None else pick(rng, pool)
+                qa = fo[1] if fo is not None else (reask if reask is not None else pick(rng, pool))
+                reask = None
                 try:
                     qobj = proto.build_inquiry(qa)
                 except Exception:
                     continue
                 finds0 = counting.finds
+                fresh_before = None
+                if kind == 'memory' and backend_kind == 'lru' and fo is None and present and \
+                        rng.random() < (0.5 if cache_empty else 0.1):
+                    # a mutation through the observable storage lands (and returns) while this decision is in flight
+                    fresh_before = Guard(raw, polcase.make_checker(k)).is_allowed(proto.build_inquiry(qa))
+                    options = []
+                    for victim in sorted(present, key=str):
+                        for mut, eff in (('delete', None), ('update', 'allow'), ('update', 'deny')):
+                            flipped = proto.build_policy(dict(case['policies'][[o.uid for o in objs].index(victim)],
+                                                              effect=eff or 'allow', uid=victim))
+                            hyp = MemoryStorage()
+                            for uu, oo in present.items():
+                                if uu != victim:
+                                    hyp.add(copy.copy(oo))
+                                elif mut == 'update':
+                                    hyp.add(copy.copy(flipped))
+                            changes = Guard(hyp, polcase.make_checker(k)).is_allowed(proto.build_inquiry(qa)) \
+                                is not fresh_before
+                            options.append((changes, victim, mut, flipped))
+                    # prefer a mutation that changes the answer to this very inquiry
+                    best = [o for o in options if o[0]] or options
+                    _, victim, mut, flipped = pick(rng, best)
+
+                    def land(victim=victim, flipped=flipped, mut=mut):
+                        if mut == 'delete':
+                            st.delete(victim)
+                            present.pop(victim, None)
+                        else:
+                            st.update(flipped)
+                    counting.hook = land
+                    reask = qa           # and the same inquiry is asked again next
+                    fresh_before = Guard(raw, polcase.make_checker(k)).is_allowed(proto.build_inquiry(qa))
+                    inflight = True
+                    human.append('(next ask: %s %s lands while it is in flight)' % (mut, victim))
                 a = guard.is_allowed(qobj)
+                counting.hook = None
+                cache_empty = False
                 hit = counting.finds == finds0
                 fresh = Guard(raw, polcase.make_checker(k)).is_allowed(proto.build_inquiry(qa))
+                if fresh_before is not None and a is fresh_before:
+                    fresh = a            # an in-flight decision may answer for the set at its start or at its end
                 kid = key_of(qobj)
                 mops.append('ask %d %s' % (kid, 'T' if fresh else 'F'))
                 outs.append('%s %s' % ('T' if a else 'F', 'hit' if hit else 'miss'))
@@ -245,6 +296,7 @@ def run(ctx):
                 human.append('%s %s -> %s' % (op, o.uid, 'returned' if ok else 'raised'))
                 if ok:
                     nmut_ok += 1
+                    cache_empty = True
                     if spy.count != n0 + 1:
                         problems.append('%s returned but notified the cache %d times' % (op, spy.count - n0))
                     elif spy.seen[-1] != after:
@@ -295,7 +347,7 @@ def run(ctx):
                         'Vakt.C11.cached_transparent / notify_exactly_once / reads_never_notify')
             f.signature = 'oracle:' + problems[0].split(' ')[0]
             out.failures.append(f)
-        elif backend_kind == 'lru':
+        elif backend_kind == 'lru' and not inflight:
             lines.append('CGUARD %s F F %d %s' % ('-' if cap is None else cap, len(mops), ' '.join(mops)))
             meta.append((outs, desc))
         out.traces += 1
